@@ -608,7 +608,7 @@ def plan(ctx):
                                 entry='h_int_roundtrip', function='JSON::serialize case 2 (int64) -> JSON::parse number branch', loops=True,
                                 defines=D + ['C04_INT_HEX=%d' % hexa, 'C04_INT_MIN=%d' % mn, 'C04_INT_LOCKSTEP=1'], kind='loop-contract',
                                 cbmc_flags=['--unwind', '21', '--unwinding-assertions'], min_post=7, timeout=600, stage1=60,
-                                replay=RP('int_roundtrip')))
+                                fallback_unwind=21, replay=RP('int_roundtrip', small_define='VERIF_SMALL')))
     groups.append(Group(name='JSON.const.roundtrip', harness=HS, entry='h_const_roundtrip', function='JSON::serialize case 0/1 -> JSON::parse null/true/false arms',
                         defines=list(D), kind='loop-free', min_post=6, replay=RP('const_roundtrip')))
     HT = 'harness/C04/strings.c'
@@ -629,11 +629,13 @@ def plan(ctx):
     HC = 'harness/C04/containers.c'
     AB = D + ['C04_EMIT_ABSTRACT=1']
     groups.append(Group(name='JSON.serialize.list', harness=HC, entry='h_ser_list', function='JSON::serialize case 5 (list)', enforce='JSON_ser_list', loops=True,
-                        defines=AB + ['C04_DICT=0'], kind='loop-contract', min_post=5, timeout=300))
+                        defines=AB + ['C04_DICT=0'], kind='loop-contract', min_post=5, timeout=300, fallback_unwind=6,
+                        replay=RP('list_roundtrip', small_define='VERIF_SMALL')))
     groups.append(Group(name='JSON.serialize.dict.add_key', harness=HC, entry='h_add_key', function='JSON::serialize case 6 (dict), lambda add_key',
                         enforce='JSON_ser_dict_add_key', defines=AB + ['C04_DICT=1'], kind='loop-free', min_post=1, timeout=300))
     groups.append(Group(name='JSON.serialize.dict', harness=HC, entry='h_ser_dict', function='JSON::serialize case 6 (dict)', enforce='JSON_ser_dict',
-                        replace=['JSON_ser_dict_add_key'], loops=True, defines=AB + ['C04_DICT=1'], kind='loop-contract', min_post=5, timeout=300))
+                        replace=['JSON_ser_dict_add_key'], loops=True, defines=AB + ['C04_DICT=1'], kind='loop-contract', min_post=5, timeout=300, fallback_unwind=6,
+                        replay=RP('dict_roundtrip', small_define='VERIF_SMALL')))
     for k, nm in ((0, 'list'), (1, 'dict')):
         groups.append(Group(name='JSON.%s.roundtrip[n<=2]' % nm, harness=HC, entry='h_container_bounded', function='JSON::serialize case %d -> JSON::parse %s branch' % (5 + k, nm),
                             defines=D + ['C04_DICT=%d' % k, 'C04_NMAX=2'], kind='bounded',
